@@ -17,7 +17,9 @@ RULE = ('corpus; exhaustive scope: every 3-valued surface on the grids 1x1..2x3 
 ASSUMPTIONS = ['surface values are not NaN (no strict weak order otherwise); floating surfaces are compared through their '
                'dense ranks (the flooding only compares costs: theorem C04_dense_rank_invariant / '
                'C04_order_isomorphism_invariant; -0.0 == 0.0)',
-               'markers are integer images of the shape of the surface (morph.py rejects anything else); labels fit int64',
+               'markers are integer/boolean images of the shape of the surface (morph.py rejects anything else); labels are the '
+               'values after the int64 cast of morph.py:314, modelled in Lean (`castMarker`: uint64 values >= 2^63 come back '
+               'negative); the harness sends the caller\'s values',
                'the neighbourhood is the set of non-zero entries of Bc after the cast to the surface dtype that '
                'get_structuring_elem performs',
                'array sizes < 2^31 (pos_to_flat/flat_to_pos use int)',
@@ -27,7 +29,7 @@ TRUSTED = ['numpy (array construction, layout views, unique for float ranks)']
 
 SURF_DTYPES = ['bool', 'uint8', 'uint16', 'uint32', 'uint64', 'int8', 'int16', 'int32', 'int64', 'float32', 'float64',
                'longdouble']
-MARK_DTYPES = ['int64', 'int32', 'uint8', 'int8', 'uint16', 'bool', 'int16', 'uint32']
+MARK_DTYPES = ['int64', 'int32', 'uint8', 'int8', 'uint16', 'bool', 'int16', 'uint32', 'uint64']
 
 _libc = None
 
@@ -68,9 +70,11 @@ def _ranks(vals, dtype):
     return [int(x) for x in vals]
 
 
-def _line(shape, costs, markers, bshape, bc):
+def _line(shape, costs, markers, bshape, bc, mcast=False):
+    # mcast: `markers` are the caller's values (any integer dtype); the driver applies its own model of the int64 cast
+    # of morph.py (`castMarker`) instead of numpy's
     return (f"c04 kind=ws shape={gen.enc_shape(shape)} data={gen.enc_arr(costs)} markers={gen.enc_arr(markers)} "
-            f"bshape={gen.enc_shape(bshape)} bc={gen.enc_arr(bc)}")
+            f"bshape={gen.enc_shape(bshape)} bc={gen.enc_arr(bc)}" + (' mcast=1' if mcast else ''))
 
 
 def _judge(drv, labels, lines, tag=''):
@@ -131,7 +135,8 @@ def _eval_single(cases):
             Bc = None if c['bcarg'] == 'none' else int(c['bcarg'])
         mnorm = [int(x) for x in M.astype(np.int64).ravel().tolist()]
         arrs.append((S, M, Bc, mnorm))
-        lines_.append(_line(shape, _ranks(c['data'], c['dtype']), mnorm, c['bshape'], c['bcnz']))
+        mraw = [int(x) for x in M.ravel().tolist()]         # the values the caller's array holds (bool: 0/1)
+        lines_.append(_line(shape, _ranks(c['data'], c['dtype']), mraw, c['bshape'], c['bcnz'], mcast=True))
     drvs = core.drive(lines_)
     for c, drv, ln, (S, M, Bc, mnorm) in zip(cases, drvs, lines_, arrs):
         shape = c['shape']
@@ -262,7 +267,7 @@ def _rand_markers(rng, shape, mdtype):
     lo, hi = gen.dt_range(mdtype)
     m = [0] * n
     style = rng.random()
-    labs = [1, 2, 3, min(hi, 7), hi] + ([-1, lo] if lo < 0 else [])
+    labs = [1, 2, 3, min(hi, 7), hi] + ([-1, lo] if lo < 0 else []) + ([2 ** 63, 2 ** 63 + 5] if hi > 2 ** 63 else [])
     if style < 0.08:
         pass                                    # no marker at all
     elif style < 0.3:
